@@ -161,6 +161,89 @@ fn check_l2(c: &ArgvCase, cx: &mut Cx) -> Res {
     Ok(())
 }
 
+
+// ---------------------------------------------------------------------------------------
+// deep / long templates (binary only: an overflow must not take the harness down)
+#[derive(Debug, Clone, Hash, Serialize, Deserialize)]
+pub struct DeepCase {
+    /// 0 parentheses, 1 nested {% if %} blocks, 2 `+` chain, 3 `and` chain, 4 `~` chain, 5 filter chain,
+    /// 6 nested arrays (not valid Tera), 7 `not` chain (not valid Tera), 8 nested function calls,
+    /// 9 nested filter arguments
+    pub kind: u8,
+    pub depth: u32,
+    /// 0 render --output-template, 1 version --output-template, 2 flow --output-template,
+    /// 3 version --bump-major <template>
+    pub site: u8,
+}
+/// nested calls: Tera's parser needs about 4x longer per level (F18), so generated cases stay shallow
+const CALL_DEPTH_CAP: u32 = 7;
+pub fn deep_template(kind: u8, depth: u32) -> (String, Option<String>) {
+    let n = depth as usize;
+    match kind % 10 {
+        0 => (format!("{{{{ {}major{} }}}}", "(".repeat(n), ")".repeat(n)), Some("1".into())),
+        1 => (format!("{}x{}", "{% if true %}".repeat(n), "{% endif %}".repeat(n)), Some("x".into())),
+        2 => (format!("{{{{ 1{} }}}}", "+1".repeat(n)), Some((n + 1).to_string())),
+        3 => (format!("{{{{ true{} }}}}", " and true".repeat(n)), Some("true".into())),
+        4 => (format!("{{{{ \"a\"{} | length }}}}", " ~ \"a\"".repeat(n)), Some((n + 1).to_string())),
+        5 => (format!("{{{{ major{} }}}}", "|int".repeat(n)), Some("1".into())),
+        6 => (format!("{{{{ {}1{} | length }}}}", "[".repeat(n), "]".repeat(n)), None),
+        7 => (format!("{{{{ {}true }}}}", "not ".repeat(n)), None),
+        8 => (format!("{{{{ {}\"a\"{} }}}}", "sanitize(value=".repeat(n), ")".repeat(n)), None),
+        _ => (format!("{{{{ {}1{} }}}}", "major | default(value=".repeat(n), ")".repeat(n)), Some("1".into())),
+    }
+}
+fn deep_args(c: &DeepCase) -> (Vec<String>, bool) {
+    let (t, _) = deep_template(c.kind, c.depth);
+    match c.site % 4 {
+        0 => (cli::sv(&["render", "1.2.3", "--output-template", &t]), true),
+        1 => (cli::sv(&["version", "--source", "none", "--tag-version", "1.2.3", "--output-template", &t]), true),
+        2 => (cli::sv(&["flow", "--source", "none", "--tag-version", "1.2.3", "--bumped-branch", "main", "--output-template", &t]), true),
+        _ => (cli::sv(&["version", "--source", "none", "--tag-version", "1.2.3", "--bump-major", &t]), false),
+    }
+}
+fn check_deep(c: &DeepCase, cx: &mut Cx) -> Res {
+    let (args, prints_template) = deep_args(c);
+    let (_, value) = deep_template(c.kind, c.depth);
+    let nested_call = matches!(c.kind % 10, 8 | 9);
+    let o = proc::run(&proc::Spec { args: args.clone(), cwd: Some("/".into()), timeout_s: Some(if nested_call && c.depth > CALL_DEPTH_CAP { 10 } else { 120 }), ..Default::default() });
+    let what = format!("{} ... [template kind {} depth {} ({} bytes)]", args[..args.len() - 1].join(" "), c.kind % 10, c.depth, args.last().map(|s| s.len()).unwrap_or(0));
+    cx.nt_if(c.depth >= 100 || (nested_call && c.depth >= 4));
+    cx.label(["parentheses", "if-blocks", "plus-chain", "and-chain", "concat-chain", "filter-chain", "arrays", "not-chain", "nested-calls", "nested-filter-args"][(c.kind % 10) as usize]);
+    cx.label(if o.timed_out { "timed-out" } else if o.signal.is_some() { "killed-by-signal" } else if o.code == Some(0) { "exit0" } else { "exit-nonzero" });
+    cx.note(|| format!("{what} -> exit {:?} signal {:?}", o.code, o.signal));
+    if o.timed_out {
+        if nested_call && c.depth >= 12 {
+            return Err(Bad::Known("F18", format!("{what}: not finished after 10 s (parse time grows about 4x per nesting level)")));
+        }
+        infra(format!("zerv timed out on {what}"));
+        return Ok(());
+    }
+    if o.signal.is_some() && o.err_str().contains("overflowed its stack") && c.depth >= 500 && !nested_call {
+        return Err(Bad::Known("F17", format!("{what}: stack overflow, killed by signal {:?}", o.signal)));
+    }
+    contract(&o, &what)?;
+    // value oracle where the template is valid and printed
+    if let (Some(v), true, Some(0)) = (&value, prints_template, o.code) {
+        ensure!(o.out_str().trim_end_matches('\n') == v, "{what}: printed {:?}, the template evaluates to {v:?}", o.out_str().chars().take(100).collect::<String>());
+    }
+    if let (Some(_), true) = (&value, prints_template) {
+        ensure!(o.code == Some(0), "{what}: a valid template is rejected: {}", o.err_str().chars().take(300).collect::<String>());
+    }
+    Ok(())
+}
+fn deep_case() -> BoxedStrategy<DeepCase> {
+    // depth: log-uniform up to what fits one argv element (128 KiB); nested calls stay under the cap
+    (0u8..10, 0u32..1700, 0u8..4)
+        .prop_map(|(kind, e, site)| {
+            let per_level: u32 = match kind { 0 | 6 => 2, 1 => 24, 2 => 2, 3 => 9, 4 => 6, 5 | 7 => 4, 8 => 16, _ => 23 };
+            let max = if matches!(kind, 8 | 9) { CALL_DEPTH_CAP } else { 120_000 / per_level };
+            // e in 0..1700 -> 10^(e/350) in 1 .. ~72000
+            let d = (10f64.powf(e as f64 / 350.0)) as u32;
+            DeepCase { kind, depth: d.clamp(1, max), site }
+        })
+        .boxed()
+}
+
 // ---------------------------------------------------------------------------------------
 const MODES: [&str; 10] = ["exit1", "silent", "multiline", "notrepo", "head", "empty", "garbage", "nonnumeric", "huge", "signal"];
 #[derive(Debug, Clone, Hash, Serialize, Deserialize)]
@@ -349,6 +432,7 @@ pub fn property() -> Property {
         check_faults,
     )
     .shrink_iters(20);
+    let deep = RandomSub::<DeepCase>::new("deep-templates", (320, 6_000), |_| deep_case(), check_deep).shrink_iters(60).floor(0.3);
     let special = EnumSub::<usize>::new("special-states", "8 environment faults: -C not a repository / nonexistent, repository without commits (version, flow), git missing from PATH (two ways), dangling gitdir file, corrupt HEAD", |_t, shard, n, visit| {
         for i in 0..8usize {
             if i % n == shard && !visit(&i) {
@@ -365,13 +449,16 @@ pub fn property() -> Property {
     }, check_table);
     Property {
         id: "C13",
-        rule: "cases = (sub-command, up to 6 flags from the real flag set with adversarial values: non-ASCII text at byte offsets that split characters, huge/negative numbers, broken and hostile templates incl. every custom function, malformed RON/JSON/rule sets; positional version strings; stdin: valid, truncated, mutated and garbage objects). argv-fuzz (in-process): no panic. argv-fuzz-binary: exit status 0 or 1, failure => empty stdout and non-empty stderr, library and binary agree, -v / RUST_LOG=trace leave stdout byte-identical. git-faults: for repositories from generated op sequences, every git invocation zerv makes (learned with a counting PATH shim) fails in turn in 10 ways (exit 1 with a message, silent exit 1, multi-line stderr, 'not a git repository', ambiguous HEAD, empty output, invalid UTF-8 garbage, non-numeric, huge number, killed by signal) for version and flow; plus 8 special states (git missing, no commits, not a repository ...). Non-trivial = the case gets past clap's argument parsing / every fault case; distinct = distinct cases.",
+        rule: "cases = (sub-command, up to 6 flags from the real flag set with adversarial values: non-ASCII text at byte offsets that split characters, huge/negative numbers, broken and hostile templates incl. every custom function, malformed RON/JSON/rule sets; positional version strings; stdin: valid, truncated, mutated and garbage objects). argv-fuzz (in-process): no panic. argv-fuzz-binary: exit status 0 or 1, failure => empty stdout and non-empty stderr, library and binary agree, -v / RUST_LOG=trace leave stdout byte-identical. git-faults: for repositories from generated op sequences, every git invocation zerv makes (learned with a counting PATH shim) fails in turn in 10 ways (exit 1 with a message, silent exit 1, multi-line stderr, 'not a git repository', ambiguous HEAD, empty output, invalid UTF-8 garbage, non-numeric, huge number, killed by signal) for version and flow; plus 8 special states (git missing, no commits, not a repository ...). deep-templates (binary only): ten template shapes (nested parentheses, {% if %} blocks, +/and/~ chains, filter chains, arrays, not-chains, nested function calls and filter arguments) at log-uniform depth 1..60000 (what fits one argv element) in render/version/flow --output-template and --bump-major: the process contract, and the printed value where the template is valid. Non-trivial = the case gets past clap's argument parsing / every fault case; distinct = distinct cases.",
         assumptions: vec![
             "--llm-help is excluded (it spawns a pager)",
             "stderr is unconstrained on success (zerv logs swallowed git errors there at ERROR level)",
             "10-digit numbers within 5 s of the wall clock are masked when comparing stdout between runs (documented dirty/ahead dev timestamp)",
         ],
-        subs: vec![table.boxed(), l1.boxed(), l2.boxed(), faults.boxed(), special.boxed()],
-        known_repro: vec![],
+        subs: vec![table.boxed(), l1.boxed(), l2.boxed(), deep.boxed(), faults.boxed(), special.boxed()],
+        known_repro: vec![
+            ("F17", "deep-templates", serde_json::json!({"kind": 0, "depth": 30000, "site": 0})),
+            ("F18", "deep-templates", serde_json::json!({"kind": 8, "depth": 16, "site": 0})),
+        ],
     }
 }
